@@ -42,6 +42,8 @@ class Rec:
         self.maxdepth = 0
         self.on = True
         self.light = False
+        self.owner: dict[int, tuple] = {}   # id(result IR) -> (id(node), node, result) of the first call that returned it
+        self.foreign: list[dict] = []       # calls answered with the REAL IR built from a different node
 
     def snap(self, ctx) -> dict:
         return {
@@ -117,6 +119,43 @@ def _exit(schema_name, context):
 ucd.unified_enter_schema = _enter
 ucd.unified_exit_schema = _exit
 
+# ---- which raw node was each IR built from?  (SchemaParse!AnswersOwnNode: a named parse call must not be answered with
+# the real IR of a DIFFERENT node.)  _parse_schema is wrapped as a module attribute; recursion inside the parser looks the
+# name up in the module globals at call time, the loader modules hold their own reference (patched below).
+import importlib  # noqa: E402
+from collections.abc import Mapping as _Mapping  # noqa: E402
+
+import pyopenapi_gen.core.parsing.schema_parser as _sp  # noqa: E402
+
+_orig_parse = _sp._parse_schema
+
+
+def _is_real(ir) -> bool:
+    return not (getattr(ir, "_is_circular_ref", False) or getattr(ir, "_max_depth_exceeded_marker", False)
+                or getattr(ir, "_from_unresolved_ref", False) or getattr(ir, "_is_self_referential_stub", False))
+
+
+def _parse(schema_name, schema_node, context, *a, **kw):
+    res = _orig_parse(schema_name, schema_node, context, *a, **kw)
+    if REC.on and schema_name and isinstance(schema_node, _Mapping) and "$ref" not in schema_node and _is_real(res):
+        first = REC.owner.get(id(res))
+        if first is None:
+            REC.owner[id(res)] = (id(schema_node), schema_node, res)
+        elif first[0] != id(schema_node) and first[1] != schema_node:
+            REC.foreign.append({"n": schema_name})
+    return res
+
+
+_sp._parse_schema = _parse
+for _m in ("pyopenapi_gen.core.loader.schemas.extractor", "pyopenapi_gen.core.loader.parameters.parser",
+           "pyopenapi_gen.core.loader.operations.request_body", "pyopenapi_gen.core.loader.responses.parser"):
+    try:
+        _mod = importlib.import_module(_m)
+        if getattr(_mod, "_parse_schema", None) is _orig_parse:
+            _mod._parse_schema = _parse
+    except Exception:  # noqa: BLE001 - a moved module is not this worker's business
+        pass
+
 
 class _Timeout(Exception):
     pass
@@ -164,6 +203,8 @@ def describe_schema(s) -> dict:
 
 def run_job(job: dict) -> dict:
     REC.ev = []
+    REC.owner = {}
+    REC.foreign = []
     REC.ctx = None
     REC.maxdepth = 0
     REC.on = "events" in job.get("want", ["events"])
@@ -195,6 +236,7 @@ def run_job(job: dict) -> dict:
             ev.append(rest_event(REC.snap(REC.ctx)))
         ev.append({"k": "end", "err": err.split(":")[0], "present": sorted(set(present)), "maxdepth": REC.maxdepth})
         out["ev"] = ev
+        out["foreign"] = sorted({f["n"] for f in REC.foreign})
     if ir is not None and "ir" in job.get("want", []):
         out["ir"] = {k: describe_schema(s) for k, s in ir.schemas.items()}
     return out
